@@ -193,6 +193,9 @@ def ek_of(e: BaseException) -> str:
 _MOD_COUNTER = [0]
 
 
+DEFAULT_ANNOT = False   # wrapper mode new Reg objects start with (see realize / core.Ctx.wrapped)
+
+
 class Reg:
     """Classes realised for one case: id -> class, class -> id; owns a throw-away module."""
 
@@ -211,6 +214,7 @@ class Reg:
         self.mixin = mixin
         self.base = base
         self.ty_of_cls: dict[str, list] = {}
+        self.annot = DEFAULT_ANNOT
 
     def add(self, cid: str, cls: type):
         cls.__module__ = self.modname
